@@ -1,6 +1,6 @@
 (* Conc/LocksInv.v — preservation of the protocol invariant inv2' (= glob + per-client loc, see
    LocksDeadlock.v) by the steps of a client: one lemma per label that changes the shared state, plus inv2_pure
-   for the labels that do not.  (Background goroutines: not done yet.) *)
+   for the labels that do not.  (Background goroutines: Conc/LocksInvBg.v; assembly: Conc/LocksInvAll.v.) *)
 From GL Require Import Conc.Locks Conc.LocksProofs Conc.LocksDeadlock.
 From Coq Require Import Lia.
 
